@@ -299,6 +299,35 @@ theorem C16_spawn_recipe (cmd sockPath : Str) (fd pid : Nat) (parentEnv : Env) (
     simp only [serverListen, ha, hu, ht]
     simp
 
+/-- a concrete parent: inherited foreign `LISTEN_PID`, stdio, the listener (object 7) and a
+    descriptor 7 that is close-on-exec -/
+def exParentEnv : Env := [(kListenPid, ['1']), (['P', 'A', 'T', 'H'], ['/', 'b', 'i', 'n'])]
+def exParentFds (listenerFd : Nat) : FdTable :=
+  [(0, ⟨100, false⟩), (1, ⟨101, false⟩), (2, ⟨102, false⟩), (listenerFd, ⟨7, true⟩), (7, ⟨9, true⟩)]
+
+/-- non-vacuity of `C16_spawn_recipe`: the listener is descriptor 5 in the parent (moved to 3 with
+    dup2, 5 closed), or already descriptor 3 (close-on-exec cleared); descriptor 7 is gone after
+    the exec, stdout is stderr -/
+example :
+    let child5 := runRecipe (execRecipe ['s', 'v', 'c'] ['/', 't'] 5) exParentEnv (exParentFds 5) 4242
+    let child3 := runRecipe (execRecipe ['s', 'v', 'c'] ['/', 't'] 3) exParentEnv (exParentFds 3) 4242
+    child5.map (fun c => (c.pid, c.cmd)) = some (4242, ['s', 'v', 'c']) ∧
+    child5.map (fun c => (fdGet 3 c.fds, fdGet 1 c.fds)) = some (some ⟨7, false⟩, some ⟨102, false⟩) ∧
+    child5.map (fun c => (fdGet 5 c.fds, fdGet 7 c.fds)) = some (none, none) ∧
+    child3.map (fun c => (fdGet 3 c.fds, fdGet 7 c.fds)) = some (some ⟨7, false⟩, none) ∧
+    child3.map (fun c => envGet kVarlinkAddress c.env) = some (some ['u', 'n', 'i', 'x', ':', '/', 't']) := by
+  decide
+
+/-- the hypotheses of `C16_spawn_recipe` hold for that parent, so its child — whose inherited
+    `LISTEN_PID=1` is overridden by its own pid — adopts descriptor 3 -/
+example : ∃ c, runRecipe (execRecipe ['s', 'v', 'c'] ['/', 't'] 5) exParentEnv (exParentFds 5) 4242 = some c ∧
+    envGet kListenPid c.env = some (decimal 4242) ∧ activationListener c.env c.pid = some 3 ∧
+    envGet kListenPid exParentEnv = some ['1'] := by
+  have h := C16_spawn_recipe ['s', 'v', 'c'] ['/', 't'] 5 4242 exParentEnv (exParentFds 5) ⟨7, true⟩
+    (by decide) (by decide) (by decide)
+  obtain ⟨_, _, c, hc, _, _, _, hp, _, _, _, _, ha, _⟩ := h
+  exact ⟨c, hc, hp, ha, by decide⟩
+
 /-- non-vacuity of `C16_spawn_recipe` and of the activation matrix: concrete
     environments, including the quirks the `addr` suite replays on the real code
     (`+1`, leading zeros, a name index beyond `LISTEN_FDS`) -/
